@@ -251,6 +251,11 @@ type worker struct {
 	refDiverges   uint64
 	divergeEx     [][2]string
 	hangConfirmed int
+	// decomposition oracle of Join (applied to the disagreements with the
+	// reference): instances judged, and instances on which the model of the
+	// reference's concatenation did not reproduce the reference (not judged;
+	// expected 0)
+	joinSelf, joinModelOff uint64
 
 	// watchdog: progress counter and the input being evaluated
 	progress atomic.Uint64
